@@ -1,4 +1,5 @@
 import Utv.Model.C13
+import Utv.Model.C13Defs
 import Utv.Util.J
 /-! Line-protocol driver for C13: runs the generator model, the Lean JSON-Schema validator / metaschema,
 the encoder model, `conforms` and the field predicates on one case. -/
@@ -48,7 +49,8 @@ def consOf (j : Json) : Cons :=
   | .obj kvs => kvs.toList.map fun (k, v) => (k, toM v)
   | _ => []
 
-def metaOf (j : Json) : RuleMeta := ⟨optStrJ (fld j "primitive"), optStrJ (fld j "format")⟩
+def metaOf (j : Json) : RuleMeta :=
+  { primitive := optStrJ (fld j "primitive"), format := optStrJ (fld j "format"), name := str! (fld j "name"), uid := nat! (fld j "uid") }
 
 def flagOf (j : Json) : Flag :=
   match j with
@@ -91,6 +93,9 @@ partial def tyOf (j : Json) : Ty :=
   match str! (fld j "k") with
   | "plain" => (primOf (str! (fld j "p"))).elim .any .plain
   | "scalar" => .scalar ((primOf (str! (fld j "p"))).getD .str) (metaOf j) (consOf (fld j "cons"))
+  | "derived" =>
+    let b := fld j "base"
+    .derived ((primOf (str! (fld b "p"))).getD .str) (metaOf b) (consOf (fld b "cons")) (nat! (fld j "uid")) (consOf (fld j "cons"))
   | "seq" => .seq ((primOf (str! (fld j "p"))).getD .list) (metaOf j) (consOf (fld j "cons")) (tyOf (fld j "item"))
   | "tup" => .tup (metaOf j) (consOf (fld j "cons")) ((arr! (fld j "items")).map tyOf)
   | "map" => .map (metaOf j) (consOf (fld j "cons")) (tyOf (fld j "key")) (tyOf (fld j "val"))
@@ -112,7 +117,7 @@ partial def tyOf (j : Json) : Ty :=
     let opts : Opts := { mode := optChar (fld o "mode"), addition := additionOf (str! (fld o "addition")),
                          ignoreRequired := bool! (fld o "ignore_required"), noDefault := bool! (fld o "no_default"),
                          deferDefault := bool! (fld o "defer_default") }
-    .data ⟨str! (fld j "name"), opts⟩
+    .data { name := str! (fld j "name"), opts := opts, uid := nat! (fld j "uid") }
       ((arr! (fld j "fields")).map fun f => Fld.mk (normField (rawField f)) (tyOf (fld f "ty")))
       (if isNull (fld j "addTy") then .any else tyOf (fld j "addTy"))
   | _ => .any
@@ -231,64 +236,88 @@ def fieldRow (cfgMode : Option Char) (c : ClassMeta) (f : FieldMeta) : Json :=
     ("present", Json.bool (Spec.present f o)),
     ("defaultApplies", Json.bool (defaultApplies f o))]
 
-def handle (j : Json) : Json :=
-  if str! (fld j "op") == "tables" then tablesJ else
+/-- one declaration; `regs` = the `$defs` registries (input view, output view) shared by the steps of a session -/
+def handleCase (j : Json) (regs : Reg × Reg) : Json × (Reg × Reg) :=
   let rows := rxRows (fld j "rx")
   let find (p s : String) := rows.find? fun r => r.p == p && r.s == s
   let R : Rx := ⟨fun p s => (find p s).elim false (·.full), fun p s => (find p s).elim false (·.search)⟩
   let known (p s : String) : Bool := (find p s).isSome
   let fuel := 64
-  if str! (fld j "op") == "pairs" then
-    -- validator / metaschema cross-check on arbitrary documents
-    let outs := (arr! (fld j "pairs")).map fun p =>
-      let root := toM (fld p "schema")
-      let insts := (arr! (fld p "instances")).map toM
-      Json.mkObj [("wf", Json.bool (wf root)),
-                  ("valid", boolsJ (insts.map fun i => validateRoot R.search fuel root root i)),
-                  ("rxmiss", Json.arr (insts.flatMap fun i => missing known root i).toArray)]
-    Json.mkObj [("pairs", Json.arr outs.toArray)]
-  else
   let ty := tyOf (fld j "ty")
-  if !wfTy ty then Json.mkObj [("unmodelled", Json.str "declaration outside the modelled fragment (wfTy)")] else
+  if !wfTy ty then (Json.mkObj [("unmodelled", Json.str "declaration outside the modelled fragment (wfTy)")], regs) else
   let gm := optChar (fld j "genMode")
   let sIn := generate ⟨false, gm⟩ ty
   let sOut := generate ⟨true, gm⟩ ty
   let C : Ctx := ⟨R.search, fun _ _ => false⟩
-  let realOut : Option MJ := if isNull (fld j "real_out") then none else some (toM (fld j "real_out"))
-  let realIn : Option MJ := if isNull (fld j "real_in") then none else some (toM (fld j "real_in"))
+  let optDoc (k : String) : Option MJ := if isNull (fld j k) then none else some (toM (fld j k))
+  let realOut := optDoc "real_out"
+  let realIn := optDoc "real_in"
+  let defsOut := optDoc "defs_real_out"
+  let defsIn := optDoc "defs_real_in"
+  let finalOut := optDoc "final_real_out"
+  let finalIn := optDoc "final_real_in"
+  -- `$defs` mode of the model, threading the registries
+  let wantDefs := bool! (fld j "defs")
+  let dIn := genD ⟨false, gm⟩ regs.1 ty
+  let dOut := genD ⟨true, gm⟩ regs.2 ty
+  let regs' : Reg × Reg := if wantDefs then (dIn.2, dOut.2) else regs
+  let vr (d : Option MJ) (x : MJ) : Json := match d with
+    | some d => Json.bool (validateRoot R.search fuel d d x)
+    | none => Json.null
+  let miss (d : Option MJ) (x : MJ) : List Json := match d with
+    | some d => missing known d x
+    | none => []
   let outs := (arr! (fld j "outs")).map fun o =>
     let r := pvOf (fld o "pv")
     let e := encode r
+    let x := toM (fld o "enc")
     Json.mkObj [("enc", ofM e), ("conforms", Json.bool (conforms R ty r)),
                 ("safe", Json.bool (safeDecimals r)), ("oneOfOk", Json.bool (oneOfOk C ⟨true, gm⟩ ty r)),
                 ("valid_model", Json.bool (validate C sOut e)),
-                ("valid_real", match realOut with
-                  | some d => Json.bool (validateRoot R.search fuel d d (toM (fld o "enc")))
-                  | none => Json.null),
-                ("rxmiss", Json.arr (missing known sOut e ++ (match realOut with
-                  | some d => missing known d (toM (fld o "enc"))
-                  | none => [])).toArray)]
+                ("valid_real", vr realOut x), ("valid_defs", vr defsOut x), ("valid_final", vr finalOut x),
+                ("rxmiss", Json.arr (missing known sOut e ++ miss realOut x ++ miss defsOut x ++ miss finalOut x).toArray)]
   let ins := (arr! (fld j "ins")).map fun i =>
     let x := toM i
     Json.mkObj [("valid_model", Json.bool (validate C sIn x)),
-                ("valid_real", match realIn with
-                  | some d => Json.bool (validateRoot R.search fuel d d x)
-                  | none => Json.null),
-                ("rxmiss", Json.arr (missing known sIn x ++ (match realIn with
-                  | some d => missing known d x
-                  | none => [])).toArray)]
+                ("valid_real", vr realIn x), ("valid_defs", vr defsIn x), ("valid_final", vr finalIn x),
+                ("rxmiss", Json.arr (missing known sIn x ++ miss realIn x ++ miss defsIn x ++ miss finalIn x).toArray)]
   let fields := match ty with
     | .data c fs _ => fs.map fun (f : Fld) => fieldRow gm c f.meta
     | _ => []
   let unknown := match ty with
     | .data c _ _ => Json.str (unknownName (parserUnknown c.opts))
     | _ => Json.null
-  Json.mkObj [
+  let wfOpt (d : Option MJ) : Json := match d with | some d => Json.bool (wf d) | none => Json.null
+  (Json.mkObj [
     ("schema_in", ofM sIn), ("schema_out", ofM sOut),
+    ("defs_in", if wantDefs then ofM (documentD dIn.1 dIn.2) else Json.null),
+    ("defs_out", if wantDefs then ofM (documentD dOut.1 dOut.2) else Json.null),
     ("wf_model_in", Json.bool (wf sIn && uniqueKeys sIn)), ("wf_model_out", Json.bool (wf sOut && uniqueKeys sOut)),
-    ("wf_real_in", match realIn with | some d => Json.bool (wf d) | none => Json.null),
-    ("wf_real_out", match realOut with | some d => Json.bool (wf d) | none => Json.null),
+    ("wf_real_in", wfOpt realIn), ("wf_real_out", wfOpt realOut),
+    ("wf_defs_in", wfOpt defsIn), ("wf_defs_out", wfOpt defsOut),
     ("outs", Json.arr outs.toArray), ("ins", Json.arr ins.toArray),
-    ("fields", Json.arr fields.toArray), ("unknown", unknown)]
+    ("fields", Json.arr fields.toArray), ("unknown", unknown)], regs')
+
+def handle (j : Json) : Json :=
+  if str! (fld j "op") == "tables" then tablesJ else
+  if str! (fld j "op") == "pairs" then
+    let rows := rxRows (fld j "rx")
+    let find (p s : String) := rows.find? fun r => r.p == p && r.s == s
+    let search (p s : String) : Bool := (find p s).elim false (·.search)
+    let known (p s : String) : Bool := (find p s).isSome
+    -- validator / metaschema cross-check on arbitrary documents
+    let outs := (arr! (fld j "pairs")).map fun p =>
+      let root := toM (fld p "schema")
+      let insts := (arr! (fld p "instances")).map toM
+      Json.mkObj [("wf", Json.bool (wf root)),
+                  ("valid", boolsJ (insts.map fun i => validateRoot search 64 root root i)),
+                  ("rxmiss", Json.arr (insts.flatMap fun i => missing known root i).toArray)]
+    Json.mkObj [("pairs", Json.arr outs.toArray)]
+  else if str! (fld j "op") == "session" then
+    let res := (arr! (fld j "steps")).foldl (fun (acc : List Json × (Reg × Reg)) st =>
+      let r := handleCase st acc.2
+      (acc.1 ++ [r.1], r.2)) ([], ([], []))
+    Json.mkObj [("steps", Json.arr res.1.toArray)]
+  else (handleCase j ([], [])).1
 
 def main : IO Unit := serve handle
